@@ -1,5 +1,6 @@
 import CnlProofs.Scaled
 import CnlProofs.ScaledFloat
+import CnlProofs.ScaledMixed
 /-!
 # C04 — integer ↔ integer conversions between `scaled_integer`s preserve the value or truncate toward zero
 
@@ -25,6 +26,11 @@ at every step of the repeated multiplication that the product fits).
   lost, toward zero, for both signs; in terms of denoted values `den q ≤ den v < den (q+1)` for
   `v ≥ 0` and `den (q-1) < den v ≤ den q` for `v ≤ 0`.
 * `convert_same_exponent` — equal exponents: the built-in conversion of the representation.
+* different radixes (model `CnlModel.ScaledMixed`, section "Different radixes" at the end):
+  `mixed_radix_exact_or_truncated` — the result is the exact quotient
+  `(v · rS^eS⁺ · rD^eD⁻).tdiv (rS^eS⁻ · rD^eD⁺)` converted to `D`, never UB, whenever the powers are well-formed and
+  the numerator fits the source representation type; `mixed_radix_fits`, `mixed_radix_value_preserved` (exact when
+  the divisor divides), `mixed_radix_truncates_toward_zero` (sign and `< 1` unit lost, in denoted values).
 
 ## Floating point (radix 2)
 
@@ -314,5 +320,127 @@ example : Layered.cast (.sc (.int i64) (-2) 10) (sc i16 1 10 12) = .ok (sc i64 (
 example : CvtOk i16 (1 - (-2)) 10 12 := by decide
 -- the value does not fit the destination: reduced modulo 2^8
 example : Layered.cast (.sc (.int u8) 0 2) (sc i32 0 2 300) = .ok (sc u8 0 2 44) := by decide
+
+/-! ## Different radixes (`CnlModel.ScaledMixed`)
+
+`scaled_integer<S, power<eS, rS>>` → `scaled_integer<D, power<eD, rD>>` with `rS ≠ rD` (the same code serves
+`rS = rD`, but that case takes the single-`scale` route above).  The code keeps the running value in a variable of
+the SOURCE representation type `S` and applies up to four `scale` steps, every multiplication before every
+division: `· rS^eS` (`eS > 0`), `· rD^(-eD)` (`eD < 0`), `/ rS^(-eS)` (`eS < 0`), `/ rD^eD` (`eD > 0`); each step is
+computed in `promote S` and assigned back to the variable; the final value is converted to `D`.
+
+Write `x⁺ = max x 0`, `x⁻ = max (-x) 0` (`Int.toNat x`, `Int.toNat (-x)`); the *numerator* is
+`v · rS^eS⁺ · rD^eD⁻` and the *divisor* `rS^eS⁻ · rD^eD⁺`, so the source value `v · rS^eS` equals
+`(numerator / divisor) · rD^eD`.  The restriction, as the code realises "the destination can represent it / only
+low-order digits are lost": the four `power_value` instantiations are well-formed (`PowOk`, i.e. each power is a value
+of `promote S` — `powOk_iff_fits`; vacuous for the unused sign of each exponent) and the numerator fits the source
+representation type `S` (then so does the intermediate `v · rS^eS⁺`).  Outside it a signed multiplication may
+overflow (UB) or the assignment back to `S` reduces modulo `2^bits`; the model follows the code there too
+(differentially validated) but no theorem is claimed.
+-/
+section MixedRadix
+open Cnl.ScaledMixedP
+
+/-- nested truncating division by positive numbers is one truncating division by the product -/
+theorem nested_truncating_division (a b c : Int) (hb : 0 < b) (hc : 0 < c) : (a.tdiv b).tdiv c = a.tdiv (b * c) :=
+  tdiv_tdiv_pos a b c hb hc
+
+/-- **different radixes**: the conversion is defined (never UB, never ill-formed) and its result is the exact
+quotient `numerator / divisor` truncated toward zero, converted to the destination representation type -/
+theorem mixed_radix_exact_or_truncated (S D : IntTy) (hS : 1 ≤ S.bits) (eS eD : Int) (rS rD : Nat)
+    (hrS : 2 ≤ rS) (hrD : 2 ≤ rD) (v : Int) (hv : S.InRange v)
+    (hpS : PowOk S eS.toNat rS ∧ PowOk S (-eS).toNat rS) (hpD : PowOk S eD.toNat rD ∧ PowOk S (-eD).toNat rD)
+    (hfit : S.InRange (v * pw rS eS.toNat * pw rD (-eD).toNat)) :
+    ScaledMixed.convert S eS rS D eD rD v
+      = .ok (Cnl.convert D (S, (v * pw rS eS.toNat * pw rD (-eD).toNat).tdiv (pw rS (-eS).toNat * pw rD eD.toNat)))
+    ∧ S.InRange (v * pw rS eS.toNat) :=
+  ⟨convert_eval S D hS eS eD rS rD hrS hrD v hv ⟨hpS.1, hpS.2, hpD.1, hpD.2, hfit⟩,
+   inRange_of_mul_ge_one (pw_ge_one hrD _) hfit⟩
+
+/-- … the truncated quotient itself when it fits the destination representation type -/
+theorem mixed_radix_fits (S D : IntTy) (hS : 1 ≤ S.bits) (hD : 1 ≤ D.bits) (eS eD : Int) (rS rD : Nat)
+    (hrS : 2 ≤ rS) (hrD : 2 ≤ rD) (v : Int) (hv : S.InRange v)
+    (hpS : PowOk S eS.toNat rS ∧ PowOk S (-eS).toNat rS) (hpD : PowOk S eD.toNat rD ∧ PowOk S (-eD).toNat rD)
+    (hfit : S.InRange (v * pw rS eS.toNat * pw rD (-eD).toNat))
+    (hdst : D.InRange ((v * pw rS eS.toNat * pw rD (-eD).toNat).tdiv (pw rS (-eS).toNat * pw rD eD.toNat))) :
+    ScaledMixed.convert S eS rS D eD rD v
+      = .ok (D, (v * pw rS eS.toNat * pw rD (-eD).toNat).tdiv (pw rS (-eS).toNat * pw rD eD.toNat)) := by
+  rw [(mixed_radix_exact_or_truncated S D hS eS eD rS rD hrS hrD v hv hpS hpD hfit).1]
+  simp only [Cnl.convert, IntTy.wrap_id hD hdst]
+
+/-- **exact**: when the divisor divides the numerator (`numerator = q · divisor`; in particular whenever
+`eS ≥ 0 ≥ eD`, where the divisor is 1) and `q` fits `D`, the result is `q` and it denotes exactly the source's
+value: `q · rD^eD = v · rS^eS` -/
+theorem mixed_radix_value_preserved (S D : IntTy) (hS : 1 ≤ S.bits) (hD : 1 ≤ D.bits) (eS eD : Int) (rS rD : Nat)
+    (hrS : 2 ≤ rS) (hrD : 2 ≤ rD) (v : Int) (hv : S.InRange v)
+    (hpS : PowOk S eS.toNat rS ∧ PowOk S (-eS).toNat rS) (hpD : PowOk S eD.toNat rD ∧ PowOk S (-eD).toNat rD)
+    (hfit : S.InRange (v * pw rS eS.toNat * pw rD (-eD).toNat))
+    (q : Int) (hdiv : v * pw rS eS.toNat * pw rD (-eD).toNat = q * (pw rS (-eS).toNat * pw rD eD.toNat))
+    (hdst : D.InRange q) :
+    ScaledMixed.convert S eS rS D eD rD v = .ok (D, q) ∧ den rD q eD = den rS v eS := by
+  have hpos : 0 < pw rS (-eS).toNat * pw rD eD.toNat := denom_pos hrS hrD eS eD
+  have hq : (v * pw rS eS.toNat * pw rD (-eD).toNat).tdiv (pw rS (-eS).toNat * pw rD eD.toNat) = q := by
+    rw [hdiv]; exact Int.mul_tdiv_cancel q (by omega)
+  refine ⟨?_, (den_dst_eq_src_iff rS rD hrS hrD eS eD v q).2 hdiv.symm⟩
+  rw [← hq]
+  exact mixed_radix_fits S D hS hD eS eD rS rD hrS hrD v hv hpS hpD hfit (hq ▸ hdst)
+
+/-- **truncated toward zero**: the result `q` has the sign of `v` (or is zero), less than one unit of the
+destination's last place is lost, toward zero, for both signs:
+`q · rD^eD ≤ v · rS^eS < (q+1) · rD^eD` for `v ≥ 0` and `(q-1) · rD^eD < v · rS^eS ≤ q · rD^eD` for `v ≤ 0` -/
+theorem mixed_radix_truncates_toward_zero (S D : IntTy) (hS : 1 ≤ S.bits) (hD : 1 ≤ D.bits) (eS eD : Int)
+    (rS rD : Nat) (hrS : 2 ≤ rS) (hrD : 2 ≤ rD) (v : Int) (hv : S.InRange v)
+    (hpS : PowOk S eS.toNat rS ∧ PowOk S (-eS).toNat rS) (hpD : PowOk S eD.toNat rD ∧ PowOk S (-eD).toNat rD)
+    (hfit : S.InRange (v * pw rS eS.toNat * pw rD (-eD).toNat))
+    (hdst : D.InRange ((v * pw rS eS.toNat * pw rD (-eD).toNat).tdiv (pw rS (-eS).toNat * pw rD eD.toNat))) :
+    let n := v * pw rS eS.toNat * pw rD (-eD).toNat
+    let p := pw rS (-eS).toNat * pw rD eD.toNat
+    let q := n.tdiv p
+    ScaledMixed.convert S eS rS D eD rD v = .ok (D, q)
+    ∧ (0 ≤ v → 0 ≤ q ∧ q * p ≤ n ∧ n < q * p + p)
+    ∧ (v ≤ 0 → q ≤ 0 ∧ n ≤ q * p ∧ q * p - p < n)
+    ∧ (0 ≤ v → den rD q eD ≤ den rS v eS ∧ den rS v eS < den rD (q + 1) eD)
+    ∧ (v ≤ 0 → den rD (q - 1) eD < den rS v eS ∧ den rS v eS ≤ den rD q eD) := by
+  intro n p q
+  have hpos : 0 < p := denom_pos hrS hrD eS eD
+  have htz := tdiv_toward_zero n p hpos
+  have hn0 : 0 ≤ v → 0 ≤ n := numer_nonneg hrS hrD eS eD
+  have hn1 : v ≤ 0 → n ≤ 0 := numer_nonpos hrS hrD eS eD
+  have hle := den_dst_le_src_iff rS rD hrS hrD eS eD v
+  have hlt := den_src_lt_dst_iff rS rD hrS hrD eS eD v
+  have hlt' := den_dst_lt_src_iff rS rD hrS hrD eS eD v
+  have hle' := den_src_le_dst_iff rS rD hrS hrD eS eD v
+  refine ⟨mixed_radix_fits S D hS hD eS eD rS rD hrS hrD v hv hpS hpD hfit hdst,
+    fun h => htz.1 (hn0 h), fun h => htz.2 (hn1 h), fun h => ?_, fun h => ?_⟩
+  · have := htz.1 (hn0 h)
+    refine ⟨(hle q).2 this.2.1, (hlt (q + 1)).2 ?_⟩
+    show n < (q + 1) * p
+    rw [Int.add_mul, Int.one_mul]; exact this.2.2
+  · have := htz.2 (hn1 h)
+    refine ⟨(hlt' (q - 1)).2 ?_, (hle' q).2 this.2.1⟩
+    show (q - 1) * p < n
+    rw [Int.sub_mul, Int.one_mul]; exact this.2.2
+
+-- the input a seeded defect got wrong (it divided before multiplying): 2·10^1 = 20 → 5·2^2
+example : ScaledMixed.convert i32 1 10 i32 2 2 2 = .ok (i32, 5) := by decide +kernel
+example : ScaledMixed.convert i32 1 10 i32 2 2 2 = .ok (i32, 5) :=
+  mixed_radix_fits i32 i32 (by decide) (by decide) 1 2 10 2 (by decide) (by decide) 2 (by decide)
+    (by decide) (by decide) (by decide +kernel) (by decide +kernel)
+-- both exponents negative, negative value: -37·10^-1 = -3.7 → -29·2^-3 = -3.625 (toward zero)
+example : ScaledMixed.convert i16 (-1) 10 i8 (-3) 2 (-37) = .ok (i8, -29) := by decide +kernel
+example : (PowOk i16 (-1 : Int).toNat 10 ∧ PowOk i16 (- -1 : Int).toNat 10)
+    ∧ (PowOk i16 (-3 : Int).toNat 2 ∧ PowOk i16 (- -3 : Int).toNat 2)
+    ∧ i16.InRange (-37 * pw 10 (-1 : Int).toNat * pw 2 (- -3 : Int).toNat)
+    ∧ i8.InRange ((-37 * pw 10 (-1 : Int).toNat * pw 2 (- -3 : Int).toNat).tdiv
+        (pw 10 (- -1 : Int).toNat * pw 2 (-3 : Int).toNat)) := by decide +kernel
+-- exact: 3·10^2 = 300 = 75·2^2, both exponents positive, into an unsigned destination
+example : ScaledMixed.convert i16 2 10 u8 2 2 3 = .ok (u8, 75)
+    ∧ (3 * pw 10 (2 : Int).toNat * pw 2 (-2 : Int).toNat = 75 * (pw 10 (-2 : Int).toNat * pw 2 (2 : Int).toNat)) := by
+  decide +kernel
+-- outside the restriction (the numerator does not fit the source type): the stored intermediate wraps
+example : ¬ i8.InRange (100 * pw 10 (1 : Int).toNat * pw 2 (-2 : Int).toNat)
+    ∧ ScaledMixed.convert i8 1 10 i32 2 2 100 = .ok (i32, -6) := by decide +kernel
+
+end MixedRadix
 
 end Cnl.C04
